@@ -27,13 +27,21 @@ Record obs := { o_opened : bool; o_reads : list (N * obsv); o_stages : list (lis
                 o_second : list batch; o_reads2 : list (N * obsv) }.
 Definition Ob := Build_obs.
 
-Record case := {
+Record dbcase := {
   c_prop : N; c_sync : bool; c_seg : N; c_buckets : N; c_txn : bool;
   c_steps : list step; c_effs : list eff; c_n : N; c_acked : N;
   c_torn : N;   (* 0: the image after the n-th effect; j+1: the n-th effect is a WAL write torn inside
                    its last record: only j of its records are complete in the file *)
   c_obs : obs }.
-Definition Cs := Build_case.
+
+(** a case of the wal.Manager-level sub-family of C09: the ids of the appended records, how many
+    of them were acknowledged (append + Sync returned) at the crash point, whether VerifyDir + Open
+    succeeded on the image, and the ids Replay returned *)
+Record walcase := { w_appended : list N; w_acked : N; w_opened : bool; w_replayed : list N }.
+
+Definition case := (dbcase + walcase)%type.
+Definition Cs a b c d e f g h i j k : case := inl (Build_dbcase a b c d e f g h i j k).
+Definition Wl a b c d : case := inr (Build_walcase a b c d).
 
 Definition medit_eqb (a b : medit) : bool :=
   match a, b with
@@ -83,7 +91,7 @@ Fixpoint run_through (ms : list mop) (n : nat) (st : mstate) : mstate :=
   end.
 
 (** the maintenance the harness forces on a recovered store *)
-Definition plan (c : case) (s : rstore) : list maint :=
+Definition plan (c : dbcase) (s : rstore) : list maint :=
   let pre := [MtFlushAll] ++ map MtSeal (range_N (N.to_nat (c_buckets c))) in
   pre ++ sealed_files (N.to_nat (c_buckets c)) (maint_all pre s).
 
@@ -96,7 +104,7 @@ Definition entry_batches (w : list step) : list batch :=
     judged by the oracle only — close/reopen is C12's subject) *)
 Definition last_stage (o : obs) : list (N * obsv) := nth 1 (o_stages o) (o_reads o).
 
-Definition check (c : case) : verdict :=
+Definition check_db (c : dbcase) : verdict :=
   let ms := compile (c_sync c) (c_steps c) in
   let st0 := init (c_seg c) (N.to_nat (c_buckets c)) in
   let n := N.to_nat (c_n c) in
@@ -135,6 +143,27 @@ Definition check (c : case) : verdict :=
       (* F13: the reads are those of a prefix of the entries, but of no prefix of the batches (a WAL
          flush inside a request, or a WAL write torn inside a request's records) *)
       if o_opened o && negb second_bad && prefix_consistent_b (entry_batches (c_steps c)) keys rd &&
-         (negb (no_split (c_steps c)) || torn) then 1 else 0
+         (negb (no_split (c_steps c)) || torn) then 1
+      (* GC removed a value-log file before the WAL records superseding its entries were durable
+         (SyncWrites off): the model reproduces the reads, the deletion of a value-log file was logged (or the file
+         removed) before the crash point, and apart from unreadable keys the reads are those of a prefix of the batches *)
+      else if o_opened o && negb (c_sync c) && negb m_reads &&
+              existsb (fun e => match e with
+                                | VR _ _ => true
+                                | MF es => existsb (fun m => match m with VD _ _ => true | _ => false end) es
+                                | _ => false
+                                end) (firstn n (c_effs c)) &&
+              existsb (fun k => obsv_eqb (rd k) OU) keys &&
+              existsb (fun j => forallb (fun k => obsv_eqb (rd k) OU || obsv_eqb (rd k) (spec_get (firstn j bs) k)) keys)
+                      (seq 0 (S (length bs)))
+      then 2 else 0
     else 0 in
   mk_verdict (m_effs || m_reads || m_ack || m_maint) viol known.
+
+(** the wal.Manager-level cases are judged by the oracle only (no model run) *)
+Definition check_wal (w : walcase) : verdict :=
+  mk_verdict false
+    (negb (w_opened w && wal_acked_durable_b (w_appended w) (N.to_nat (w_acked w)) (w_replayed w))) 0.
+
+Definition check (c : case) : verdict :=
+  match c with inl d => check_db d | inr w => check_wal w end.
